@@ -770,6 +770,22 @@ def _rewrite_functional(fn: ast.FunctionDef) -> int:
                 aliases[n.targets[0].id] = k
     count = [0]
     fresh = [0]
+    # options = {"virtual": virtual, "mask": mask} ... f(**options): a local bound once to a dict display with constant keys and
+    # stable values (constants, names never re-bound in the function), used only as `**options`
+    star_uses = {id(k.value) for n in ast.walk(fn) if isinstance(n, ast.Call) for k in n.keywords if k.arg is None and isinstance(k.value, ast.Name)}
+    optdicts: Dict[str, ast.Dict] = {}
+    params = {a.arg for a in fn.args.posonlyargs + fn.args.args + fn.args.kwonlyargs} | {a.arg for a in (fn.args.vararg, fn.args.kwarg) if a}
+    for n in ast.walk(fn):
+        if isinstance(n, (ast.Assign, ast.AnnAssign)) and getattr(n, "value", None) is not None:
+            tgt = n.targets[0] if isinstance(n, ast.Assign) and len(n.targets) == 1 else (n.target if isinstance(n, ast.AnnAssign) else None)
+            v = n.value
+            if isinstance(tgt, ast.Name) and assigned.get(tgt.id) == 1 and isinstance(v, ast.Dict) and v.keys and \
+                    all(isinstance(k, ast.Constant) and isinstance(k.value, str) and k.value.isidentifier() for k in v.keys) and \
+                    all(isinstance(x, ast.Constant) or (isinstance(x, ast.Name) and (not assigned.get(x.id) or (assigned.get(x.id) == 1 and x.id not in params)))
+                        for x in v.values):
+                loads = [m for m in ast.walk(fn) if isinstance(m, ast.Name) and m.id == tgt.id and isinstance(m.ctx, ast.Load)]
+                if loads and all(id(m) in star_uses for m in loads):
+                    optdicts[tgt.id] = v
 
     class T(ast.NodeTransformer):
         def visit_FunctionDef(self, node):
@@ -780,6 +796,16 @@ def _rewrite_functional(fn: ast.FunctionDef) -> int:
         def visit_Call(self, node):
             self.generic_visit(node)
             f = node.func
+            if any(k.arg is None and isinstance(k.value, ast.Name) and k.value.id in optdicts for k in node.keywords):
+                kws = []
+                for k in node.keywords:
+                    if k.arg is None and isinstance(k.value, ast.Name) and k.value.id in optdicts:
+                        d = optdicts[k.value.id]
+                        kws.extend(ast.keyword(arg=kk.value, value=copy.deepcopy(vv)) for kk, vv in zip(d.keys, d.values))
+                    else:
+                        kws.append(k)
+                node.keywords = kws
+                count[0] += 1
             # direct application of a partial / methodcaller object
             k = aliases.get(f.id) if isinstance(f, ast.Name) else _callable_kind(f)
             if k is not None and not any(isinstance(a, ast.Starred) for a in node.args):
